@@ -24,7 +24,8 @@ CONSTANTS
   Concurrent,   \* TRUE: worker steps interleave; FALSE: the worker runs to idle after every call
   WithRejects,  \* TRUE: arguments the reference rejects are offered too
   ExportOneIn,  \* behaviour export prints one terminal behaviour in this many (1 = all)
-  RecoveryCrashes \* TRUE: a crash may also interrupt the recovery that follows a crash
+  RecoveryCrashes, \* TRUE: a crash may also interrupt the recovery that follows a crash
+  Batch         \* TRUE: append calls with two entries are offered too
 
 
 VARIABLES
@@ -82,6 +83,13 @@ DoCall(op, a, step) ==
 AVote    == \E v \in Votes : DoCall("vote", [v |-> v], [a |-> "vote", v |-> v, x |-> ""])
 AAppend  == \E id \in AppIds, p \in Payloads :
               LET e == <<id[1], id[2], p[1], p[2]>> IN DoCall("append", [es |-> <<e>>], [a |-> "append", es |-> <<e>>, x |-> ""])
+\* one call with two entries (the second at the next index): exercises a rotation in the middle of a call,
+\* a refusal of the second entry after the first was accepted, and the segment returned for a batch
+AAppend2 == /\ Batch
+            /\ \E id \in AppIds, p \in Payloads : \E t2 \in {id[1], id[1] + 1} :
+                 LET e1 == <<id[1], id[2], p[1], p[2]>>
+                     e2 == <<t2, id[2] + 1, p[1], p[2]>>
+                 IN DoCall("append", [es |-> <<e1, e2>>], [a |-> "append", es |-> <<e1, e2>>, x |-> ""])
 ATruncate == \E i \in TruncIdx : DoCall("truncate", [i |-> i], [a |-> "truncate", i |-> i, x |-> ""])
 APurge   == \E id \in PurgeIds : DoCall("purge", [id |-> id], [a |-> "purge", id |-> id, x |-> ""])
 ACommit  == \E id \in CommitIds : DoCall("commit", [id |-> id], [a |-> "commit", id |-> id, x |-> ""])
@@ -160,7 +168,7 @@ ACrashInRecovery ==
                         st2 == [a |-> "crash_in_open", cfg |-> cfg, k |-> k, keep |-> keepHead]
                     IN Take(y, <<st1, st2, [a |-> "open", cfg |-> cfg, x |-> o2.res]>> \o y.steps, [g EXCEPT !.crashes = @ + 1])
 
-Next == AVote \/ AAppend \/ ATruncate \/ APurge \/ ACommit \/ AUser \/ AFlush
+Next == AVote \/ AAppend \/ AAppend2 \/ ATruncate \/ APurge \/ ACommit \/ AUser \/ AFlush
         \/ AWorker \/ AWorkerFault \/ AReopen \/ ACrash \/ ACrashInRecovery
 
 Spec == Init /\ [][Next]_vars
